@@ -92,6 +92,21 @@ class Node(object):
                 c = replace_code(c, **kw)
             except Exception:
                 pass
+            if g.get("extarg"):
+                # k redundant EXTENDED_ARG 0 prefixes in front of one jump (CPython runs such code; up to 6 code units)
+                from . import bytecode, prng as _prng
+
+                r2 = _prng.PRNG(g["extarg"])
+                cur = c
+                for _ in range(r2.randint(1, 5)):
+                    try:
+                        new = bytecode.insert_extended_arg(cur, bytecode.parse(cur.co_code), r2, only_jumps=True, max_units=6)
+                    except Exception:
+                        new = None
+                    if new is None or not bytecode.same_program(cur, new):
+                        break
+                    cur = new
+                c = cur
         return c
 
     def rpc_produce(self, p):
